@@ -64,7 +64,7 @@ def shr_amount(e):
 
 def assignments(prog, fn):
     """yield (block, place, expr, span) for every assignment statement (expression through Sym)"""
-    s = Sym(prog, fn)
+    s = Sym(prog, fn, ifconv=False)
     for b in fn.blocks:
         if b.cleanup:
             continue
@@ -124,7 +124,7 @@ def resolve_var(prog, fn, e, s, depth=0):
 def buffer_stores(prog, fn, field=None):
     """indexed stores into a heap buffer held in a field: `x.field[i] = v` (also through Box/Vec pointer temporaries).
     yields (block, buffer_expr, index_expr, value_expr, span, Sym)"""
-    s = Sym(prog, fn)
+    s = Sym(prog, fn, ifconv=False)
     for b in fn.blocks:
         if b.cleanup:
             continue
